@@ -329,9 +329,16 @@ func %s() {
 func I_distinct_engines() {
 	for _, sz := range [][2]int64{{1, 2}, {1, 3}, {2, 4}, {3, 5}} {
 		gp := zzReqPool(sz[0], sz[1])
-		for round := 0; round < 3; round++ {
+		for round := 0; round < 4; round++ {
 			all := zzAllWrappers(gp)
 			vnd.Assert(int64(len(all)) == sz[1], "the pool has max instances")
+			vnd.Assert(int64(len(gp.rbSlice)) == sz[1], "the pool has max working sets")
+			for i := range gp.rbSlice {
+				vnd.Assert(gp.rbSlice[i] != gp.ruleBuilder && gp.rbSlice[i].Dc != gp.ruleBuilder.Dc, "no instance works on the master's builder or data context")
+				for j := i + 1; j < len(gp.rbSlice); j++ {
+					vnd.Assert(gp.rbSlice[i] != gp.rbSlice[j] && gp.rbSlice[i].Dc != gp.rbSlice[j].Dc, "no two instances share a builder or a data context")
+				}
+			}
 			for i := range all {
 				vnd.Assert(all[i].gengine != nil, "every instance has an engine")
 				for j := i + 1; j < len(all); j++ {
@@ -340,6 +347,8 @@ func I_distinct_engines() {
 			}
 			if round == 0 {
 				zzMust(gp.UpdatePooledRules(zzReqText), "full update")
+			} else if round == 1 {
+				zzMust(gp.UpdatePooledRulesIncremental("rule \"extra\" salience 1 begin\n x = 1\nend\n"), "incremental update")
 			} else {
 				zzMust(gp.RemoveRules([]string{"b"}), "removal")
 			}
@@ -386,6 +395,52 @@ func %s() {
 }
 `, back, name, back == "additional")
 		fam.Instances = append(fam.Instances, Instance{Func: name, Stratum: "waiter", Desc: "a waiting request is served when the " + back + " instance comes back", Expect: []string{"executed"}, Nondet: true})
+	}
+	// capacity: while a request of any entry point is inside a rule, a second request is served by the other instance
+	for _, pc := range poolCalls() {
+		if pc.name == "ExecuteRulesWithSpecifiedEM" {
+			continue // carries a request and a response object only: no way to hand it the blocking function
+		}
+		name := "K_second_request_while_" + pc.name
+		fmt.Fprintf(&b, `
+// a request through %s is held inside rule a; a second request must run to its end meanwhile
+func %s() {
+	gp := zzReqPool(1, 2)
+	var gate sync.Mutex
+	gate.Lock()
+	names := []string{"a", "b"}
+	stag := &Stag{}
+	_, _ = names, stag
+	done := make([]bool, 1)
+	var wg sync.WaitGroup
+	wg.Add(1)
+	go func() {
+		defer wg.Done()
+		data := map[string]interface{}{"req": int64(1), "resp": int64(1), "ev": func(s string) {
+			if s == "a.s" {
+				gate.Lock() // held until the host lets go
+				gate.Unlock()
+			}
+		}}
+		_, _ = %s
+		done[0] = true
+	}()
+	vnd.Quiesce() // request one is now inside rule a, holding an instance
+	vnd.Assert(!done[0], "request one is in flight")
+	r2 := vnd.Int64("r2")
+	_, res2 := gp.Execute(map[string]interface{}{"req": r2, "resp": int64(2)}, true)
+	vnd.Event("second served")
+	x2, ok2 := res2["a"].(int64)
+	vnd.Assert(ok2 && x2 == r2, "with an instance idle the second request runs to its end while the first is in flight")
+	vnd.Assert(!done[0], "request one is still in flight")
+	gate.Unlock()
+	wg.Wait()
+	vnd.Quiesce()
+	zzLocksFree(gp)
+	vnd.Reach("executed")
+}
+`, pc.name, name, pc.call)
+		fam.Instances = append(fam.Instances, Instance{Func: name, Stratum: "capacity", Desc: "a second request is served while one through " + pc.name + " is held inside a rule", Expect: []string{"executed"}})
 	}
 	fam.Instances = append(fam.Instances, Instance{Func: "R_panic_out_of_pool_method", Stratum: "release", Desc: "panic out of a pool method releases the instance", Expect: []string{"executed"}},
 		Instance{Func: "C_two_in_flight", Stratum: "capacity", Desc: "two requests in flight, hand-back, again", Expect: []string{"executed"}})
